@@ -130,6 +130,7 @@ def wireMatches (bytes : List Nat) : List EOp → Bool
   | [.osc payload _] => bytes == [27, 93] ++ payload ++ [7] || bytes == [27, 93] ++ payload ++ [27, 92]
   | ops => bytes == ops.flatMap fun
       | .csi l pm => csiWire l pm
+      | .esc l => 27 :: l
       | _ => [0]
 
 /-- Everything the real Vaxis writes from `New()` until it is ready to render, as the emulator's parser
